@@ -1,0 +1,13 @@
+//go:build verif
+
+package xts
+
+// Verification hook (add-only, compiled only with -tags verif): exposes the
+// GF(2^128) doubling of the tweak so that a harness can compare it with the
+// IEEE 1619 definition on structured operands (long runs of ones, all-ones
+// limbs) that random keys and sector numbers practically never produce.
+
+// VerifMul2 is mul2.
+func VerifMul2(tweak *[16]byte) {
+	mul2(tweak)
+}
